@@ -111,3 +111,53 @@ func VerifC04_Templates() {
 		zzverif.Cover("text")
 	}
 }
+
+// VerifC04_LongLiterals: the lexer puts no limit on the length of a literal
+// or a name, so neither may the evaluator: an integer literal, a decimal
+// literal, a text literal and a context name of every length 1..130 (quick) /
+// 1..420 (thorough; 400 digits is where the number type's own limit lies),
+// alone, as an operand and as a function argument: a value or an error value,
+// never a panic. (The characters are fixed — the other harnesses vary them —
+// the length is the input here.)
+// cover: value, error-value, integer, decimal, text, name
+func VerifC04_LongLiterals() {
+	max := 130
+	if zzverif.Thorough() {
+		max = 420
+	}
+	n := zzverif.Choice("length", max) + 1
+	rep := func(c byte, k int) string {
+		b := make([]byte, k)
+		for i := range b {
+			b[i] = c
+		}
+		return string(b)
+	}
+	var lit string
+	switch zzverif.Choice("form", 4) {
+	case 0:
+		zzverif.Cover("integer")
+		lit = "1" + rep('0', n-1)
+	case 1:
+		zzverif.Cover("decimal")
+		zzverif.Assume(n >= 3)
+		lit = "0." + rep('0', n-3) + "1"
+	case 2:
+		zzverif.Cover("text")
+		zzverif.Assume(n >= 2)
+		lit = "\"" + rep('a', n-2) + "\""
+	default:
+		zzverif.Cover("name")
+		lit = rep('a', n)
+	}
+	var expr string
+	switch zzverif.Choice("position", 3) {
+	case 0:
+		expr = lit
+	case 1:
+		expr = lit + " + 1"
+	default:
+		expr = "text_length(" + lit + ")"
+	}
+	verifEvalTotal(map[string]types.XValue{"a": types.NewXText("x")}, expr)
+}
